@@ -3,6 +3,7 @@
 seeded/<prop>-<n>/{patch.diff,demo.rs,meta.json}."""
 import json, os, shutil, sys, re
 prop, n, src, needs, caught = sys.argv[1:6]
+base = re.match(r"C\d+", prop).group(0)
 d = os.path.join(os.path.dirname(os.path.dirname(os.path.abspath(__file__))), "seeded", "%s-%s" % (prop, n))
 os.makedirs(d, exist_ok=True)
 shutil.copy(os.path.join(src, "change%s.diff" % n), os.path.join(d, "patch.diff"))
@@ -10,7 +11,7 @@ shutil.copy(os.path.join(src, "demo%s.rs" % n), os.path.join(d, "demo.rs"))
 files = sorted(set(re.findall(r"^\+\+\+ b/(\S+)", open(os.path.join(d, "patch.diff")).read(), re.M)))
 meta = {
     "id": "%s-%s" % (prop, n),
-    "breaks_property": prop,
+    "breaks_property": base,
     "files_changed": files,
     "needs_to_manifest": needs,
     "demonstration": "demo.rs, placed at dropshot/tests/seeded_demo_%s.rs: fails with patch.diff applied, passes without" % n,
